@@ -109,3 +109,37 @@ Section Gram.
     rewrite inner_lcomb_r, <- sumn_scal. apply sumn_ext. intros j _. lra.
   Qed.
 End Gram.
+
+(** exchanging two finite sums *)
+Lemma sumn_swap n m (f : nat -> nat -> R) :
+  sumn n (fun i => sumn m (fun j => f i j)) = sumn m (fun j => sumn n (fun i => f i j)).
+Proof.
+  induction n as [|n IH]; cbn [sumn].
+  - symmetry. transitivity (sumn m (fun _ => 0)); [apply sumn_ext; intros; reflexivity|apply sumn_zero].
+  - rewrite IH, <- sumn_plus. reflexivity.
+Qed.
+
+(** against a symmetric matrix only the symmetric part of the multiplier counts *)
+Lemma mdot_sym_part u Sm (A : nat -> nat -> R) n :
+  shape u n n -> shape Sm n n -> same_sym_part u Sm n ->
+  (forall i j, (i < n)%nat -> (j < n)%nat -> A i j = A j i) ->
+  mdot u A = mdot Sm A.
+Proof.
+  intros Hu HS Hsym HA. rewrite (mdot_sumn u A n n Hu), (mdot_sumn Sm A n n HS).
+  assert (Hhalf : forall X : list (list Q),
+             2 * sumn n (fun i => sumn n (fun j => matR X i j * A i j))
+             = sumn n (fun i => sumn n (fun j => (matR X i j + matR X j i) * A i j))).
+  { intro X.
+    assert (Hsw : sumn n (fun i => sumn n (fun j => matR X j i * A i j))
+                  = sumn n (fun i => sumn n (fun j => matR X i j * A i j))).
+    { rewrite sumn_swap. apply sumn_ext. intros j Hj. apply sumn_ext. intros i Hi. rewrite (HA i j Hi Hj). reflexivity. }
+    rewrite <- Hsw at 1.
+    replace (2 * sumn n (fun i => sumn n (fun j => matR X j i * A i j)))
+      with (sumn n (fun i => sumn n (fun j => matR X j i * A i j)) + sumn n (fun i => sumn n (fun j => matR X j i * A i j)))
+      by lra.
+    rewrite Hsw at 1. rewrite <- sumn_plus. apply sumn_ext. intros i _. rewrite <- sumn_plus. apply sumn_ext. intros j _. lra. }
+  assert (H2 : 2 * sumn n (fun i => sumn n (fun j => matR u i j * A i j))
+               = 2 * sumn n (fun i => sumn n (fun j => matR Sm i j * A i j))).
+  { rewrite !Hhalf. apply sumn_ext. intros i Hi. apply sumn_ext. intros j Hj. rewrite (Hsym i j Hi Hj). reflexivity. }
+  lra.
+Qed.
